@@ -272,6 +272,8 @@ def check(prop, tier, seed):
                 # optional narrowing on the failure detail (e.g. one background colour only)
                 ctx_ok = ctx_ok and (("match" not in k) or re.search(k["match"], detail) is not None)
                 ctx_ok = ctx_ok and sig_ok(k, site, reason, detail)
+                # optional narrowing on the scenario itself (e.g. "the history contains a partial update")
+                ctx_ok = ctx_ok and (("scen" not in k) or re.search(k["scen"], all_lines.get((feat, sid), "")) is not None)
                 if any(fnmatch.fnmatchcase(site, s_) for s_ in sites) and reason in reasons and ctx_ok:
                     hit = k
                     break
@@ -311,7 +313,8 @@ def check(prop, tier, seed):
                     listed = any((any(fnmatch.fnmatchcase(site, s_) for s_ in (k.get("sites") or [k["site"]])) and reason in (k.get("reasons") or [k["reason"]])
                                   and (("ctx" not in k) or field(parts[4], "ctx") in k["ctx"])
                                   and (("match" not in k) or re.search(k["match"], parts[4]) is not None)
-                                  and sig_ok(k, site, reason, parts[4])) for k in known)
+                                  and sig_ok(k, site, reason, parts[4])
+                                  and (("scen" not in k) or re.search(k["scen"], all_lines.get(("v3", parts[1]), "")) is not None)) for k in known)
                     if not listed:
                         unlisted.append(("v3", parts[1], parts[4]))
         if unlisted:
